@@ -184,6 +184,7 @@ static void end_op(const char *name, const char *result) {
   }
   /* the oracle applies to one operation */
   W.crash_at = W.fail_at = W.short_at = -1;
+  W.short_all = 0;
   if (!ok(T)) {
     /* main() would report and stop; the driver clears the trace to go on */
     clear_trace(T);
@@ -273,7 +274,10 @@ int drv_world(void) {
       W.chunk = strtoul(t[1], NULL, 10);
     } else if (!strcmp(op, "oracle")) {
       W.crash_at = W.fail_at = W.short_at = -1;
-      if (!strcmp(t[1], "crash")) {
+      W.short_all = 0;
+      if (!strcmp(t[1], "shortall")) {
+        W.short_all = strtoul(t[2], NULL, 10);
+      } else if (!strcmp(t[1], "crash")) {
         W.crash_at = atol(t[2]);
       } else if (!strcmp(t[1], "fail")) {
         W.fail_at = atol(t[2]);
